@@ -18,9 +18,10 @@ class Gen:
         self.max_stmts = max_stmts
         self.depth = depth
         self.features = features or {"when", "if", "while", "groups", "actions", "activate", "return", "abort",
-                                     "priority", "loop", "vars", "refs", "start", "actionmembers", "params"}
+                                     "priority", "loop", "vars", "refs", "start", "actionmembers", "params", "endflow"}
         self.nvar = 0
         self.flow_params = {}
+        self.names = FLOWS[:1]
 
     def has(self, f):
         return f in self.features
@@ -81,7 +82,11 @@ class Gen:
                 else:
                     out.append(pad + "match " + self.ev())
             elif k < 0.36:
-                out.append(pad + "send Out%d()" % self.r.randint(1, 3))
+                if self.has("endflow") and self.r.random() < 0.15:
+                    # ask the interpreter to finish / stop every instance of a flow
+                    out.append(pad + 'send %s(flow_id="%s")' % (self.r.choice(["StopFlow", "FinishFlow"]), self.r.choice(self.names)))
+                else:
+                    out.append(pad + "send Out%d()" % self.r.randint(1, 3))
             elif k < 0.46 and self.has("actions"):
                 a = self.r.choice(ACTIONS)
                 form = self.r.random()
@@ -156,6 +161,7 @@ class Gen:
     def program(self):
         nf = self.r.randint(1, self.max_flows)
         names = FLOWS[:nf]
+        self.names = names
         text = []
         if self.has("params"):
             # one or two parameters (the second with a default) for some flows; decided first: earlier flows call later ones
